@@ -943,7 +943,12 @@ class ViewRepresentation(OperatorPlatform, abc.ABC):
             reverse = [reverse]
         if ((columns is None) or (len(columns) < 1)) and (limit is None):
             return self
-        if self.is_trivial_when_intermediate_():
+        if (
+            self.is_trivial_when_intermediate_()
+            and (columns is not None)
+            and (len(columns) > 0)
+        ):
+            # a new ordering replaces the previous one; a bare limit (no columns) keeps it
             return self.sources[0].order_rows(columns, reverse=reverse, limit=limit)
         return OrderRowsNode(source=self, columns=columns, reverse=reverse, limit=limit)
 
